@@ -111,6 +111,7 @@ def run_case(tape, tier):
             memos.append((text, dst))
         # queue in 1-2 batches so that new grams arrive while a remainder may be pending
         split = tape.draw("batch_split", nmemo + 1)
+        raw_gram = tape.pick("raw_gram_extra", [0, 0, 0, 1, 17, 120]) if size + 121 <= 1240 else 0
         expected = []     # grams in queue order: (dst, bytes)
 
         rended = []       # (memo text, [grams]) in the order rend() was called
@@ -142,6 +143,14 @@ def run_case(tape, tier):
                 order_problem.append("the gram queue after serviceTxMemos is not the queued memos' grams in order (%d grams, expected %d)" % (
                     len(got), len(want)))
             expected.extend(got)
+            if raw_gram and batch:
+                # a gram the application made itself, queued as it is: longer than the size memos are cut to (which is no
+                # limit for raw grams), well below the transport's limit
+                d0 = batch[0][1]
+                raw = bytes((7 * j + 3) & 0xff for j in range(size + 1 + raw_gram))
+                tx.gramit(raw, d0)
+                expected.append((gr.key(d0), raw))
+                res.faults["raw_gram_longer_than_memo_gram_size"] += 1
 
         def service():
             mode = tape.draw("svc_mode", 3)
